@@ -179,6 +179,10 @@ def run_program(placement, form, hint, cname, unresolved_call=False):
                     early = es.pop() if len(es) == 1 else 'inconsistent:' + ','.join(sorted(es))
             else:
                 obs = [verdicts(N, f) for N, f in pairs]
+                if len(pairs) > 1 and pairs[0][0] is not pairs[1][0]:
+                    # instances of the class of the *first* invocation handed to the closure of the second: to that closure
+                    # they are instances of an unrelated class (appended to the second vector)
+                    obs[1] = obs[1] + ('|cross|',) + verdicts(pairs[0][0], pairs[1][1])
     except Exception as e:
         return ('program-raised', type(e).__name__, str(e)[:160]), early, p1 + (p2 or '')
     finally:
@@ -219,7 +223,7 @@ def run(ctx):
                             if not isinstance(obs, list):
                                 ctx.violation(f'baseline-fails:{sig}', f'the evaluated form itself fails: {obs}\n{src}', rep)
                                 base = None
-                            elif len(obs) > 1 and any(o != obs[0] for o in obs):
+                            elif len(obs) > 1 and any(o[:len(OBJS)] != obs[0] for o in obs):
                                 ctx.violation(f'factory-invocations-differ:{sig}', f'two invocations of the same factory give different verdict vectors: {obs}\n{src}', rep)
                             else:
                                 outcomes |= set(obs[0])
@@ -230,9 +234,11 @@ def run(ctx):
                             ctx.violation(f'form-fails:{sig}', f'{form} form fails where the evaluated form works: {obs}\n{src}', rep)
                             continue
                         for j, o in enumerate(obs):
-                            if o != base[0]:
-                                diff = [(OBJS[i], b, a) for i, (b, a) in enumerate(zip(base[0], o)) if a != b][:4]
-                                ctx.violation(f'differs-from-evaluated:{sig}{":invocation2" if j else ""}',
+                            if o != base[min(j, len(base) - 1)]:
+                                diff = [((OBJS + ['|cross|'] + ['other-invocation:' + x for x in OBJS])[i], b, a) for i, (b, a) in enumerate(zip(base[min(j, len(base) - 1)], o)) if a != b][:4]
+                                bj = base[min(j, len(base) - 1)]
+                                cross_only = o[:len(OBJS)] == bj[:len(OBJS)]
+                                ctx.violation((f'cross-invocation:class-defined-after-the-closure:{sig}' if form.startswith('later') else f'cross-invocation:{sig}') if cross_only else f'differs-from-evaluated:{sig}{":invocation2" if j else ""}',
                                               f'{form} form in placement {placement} (hint {hint.replace("@", cname)}{", second invocation of the factory" if j else ""}): '
                                               f'(object, evaluated form, this form) = {diff}\n{src}', rep)
                                 break
